@@ -298,6 +298,18 @@ int main(int argc, char **argv) {
             if (!vh_case()) {
                 continue;
             }
+            {
+                /* the decomposition helpers: normal values recompose bit for bit; special values are reported as such */
+                uint64_t sg = 0, mt = 0;
+                int16_t ex = 0;
+                bool nrm = varintFloatDecompose(DA[i], &sg, &ex, &mt);
+                if (nrm != (bool)is_normal_d(DA[i]) || (bool)varintFloatIsSpecial(DA[i]) == nrm) {
+                    vh_fail("float.Decompose", "wrong_classification", "untagged", "%.17g (0x%016" PRIx64 "): Decompose says %s, IsSpecial %d", DA[i], d2u(DA[i]), nrm ? "normal" : "special", (int)varintFloatIsSpecial(DA[i]));
+                } else if (nrm && d2u(varintFloatCompose(sg, ex, mt)) != d2u(DA[i])) {
+                    vh_fail("float.Compose", "full_precision_not_bit_exact", "untagged", "%.17g: Compose(Decompose(x)) = %.17g", DA[i], varintFloatCompose(sg, ex, mt));
+                }
+                vh_count("calls", 3);
+            }
             for (int pi = 0; pi < 4; pi++) {
                 for (int mode = 0; mode < 3; mode++) {
                     snprintf(desc, sizeof desc, "{%.17g (0x%016" PRIx64 ")} precision %s mode %s", DA[i], d2u(DA[i]), PN[pi], MN[mode]);
